@@ -520,9 +520,10 @@ func CanonicalIsomorphAllocated(n, m int, neighbours [][]int, op *CanonicalOrder
 	generators := storage.generators[:0]
 	currentBest := storage.currentBest[:0]
 
-	//Handle the special case where m = 0.
+	//Handle the special case where m = 0 and all the vertices are in the same vertex class.
+	//With several vertex classes only the permutations within a class are automorphisms and the general algorithm finds them.
 	//TODO: Check if this is necessary.
-	if m == 0 {
+	if m == 0 && len(op.binDividers) == 1 {
 		//Return the identity permutation.
 		perm := storage.currentBestPerm[:n]
 		for i := 0; i < n; i++ {
@@ -611,7 +612,8 @@ func CanonicalIsomorphAllocated(n, m int, neighbours [][]int, op *CanonicalOrder
 		if !worse && len(op.binDividers) == n {
 			count++
 			//Are we the new best?
-			if comp := ints.Compare(op.value, currentBest); comp == 1 {
+			//The first leaf is always the new best. (If m = 0 its value is empty and compares equal to the initial currentBest.)
+			if comp := ints.Compare(op.value, currentBest); comp == 1 || count == 1 {
 				currentBest = currentBest[:m]
 				copy(currentBest, op.value)
 				copy(currentBestPath, path)
